@@ -27,9 +27,15 @@ type ConcScript struct {
 
 // transcript runs one scripted pair and returns a digest of everything observable:
 // every call with its input, plaintext, error, output bytes and events.
-func transcript(sc *LifeScript, yield uint32) (string, int) {
+func transcript(sc *LifeScript, yield uint32, env *concEnv) (string, int) {
 	o := &sim.Outcome{}
 	s := newLifeSess(sc, o)
+	s.W.KeepRaw = true
+	// every pair's users type the same pass phrases, and the application keeps them in one place
+	s.secrets = env.secrets
+	env.mu.Lock()
+	env.worlds = append(env.worlds, s.W)
+	env.mu.Unlock()
 	h := sha256.New()
 	calls := 0
 	prev := s.W.OnCall
@@ -68,16 +74,53 @@ func transcript(sc *LifeScript, yield uint32) (string, int) {
 	return hex.EncodeToString(h.Sum(nil)), calls
 }
 
+// concEnv is what the conversations of one case have in common on the application's side.
+type concEnv struct {
+	mu      sync.Mutex
+	worlds  []*sim.World
+	secrets [][]byte
+	orig    [][]byte
+}
+
+func newConcEnv() *concEnv {
+	e := &concEnv{secrets: [][]byte{[]byte("correct horse"), []byte("battery staple"), {}, []byte("x")}}
+	for _, s := range e.secrets {
+		e.orig = append(e.orig, append([]byte{}, s...))
+	}
+	return e
+}
+
+// intact checks what belongs to the application: the buffers it passed in and the messages it was handed.
+func (e *concEnv) intact(o *sim.Outcome, when string) bool {
+	for i := range e.secrets {
+		if string(e.secrets[i]) != string(e.orig[i]) {
+			o.Fail("C20/caller-buffer-modified", "%s: the pass phrase buffer the application passed to several conversations (%q) now reads %q: a conversation wrote into memory it was only given to read, which the other conversations read too", when, e.orig[i], e.secrets[i])
+			return false
+		}
+	}
+	for _, w := range e.worlds {
+		if msg := w.Changed(); msg != "" {
+			o.Fail("C20/returned-message-modified", "%s: %s: the memory of a message already handed to the application was written to again (by the same or another conversation)", when, msg)
+			return false
+		}
+	}
+	return true
+}
+
 func runConc(sc *ConcScript) *sim.Outcome {
 	o := &sim.Outcome{}
+	env := newConcEnv()
 	k := len(sc.Pairs)
 	solo := make([]string, k)
 	totalCalls := 0
 	for i, p := range sc.Pairs {
 		var n int
-		solo[i], n = transcript(p, 0)
+		solo[i], n = transcript(p, 0, env)
 		totalCalls += n
-		if again, _ := transcript(p, 0); again != solo[i] {
+		if !env.intact(o, fmt.Sprintf("after pair %d ran alone", i)) {
+			return o
+		}
+		if again, _ := transcript(p, 0, env); again != solo[i] {
 			return o.Fail("C20/harness-nondeterministic", "harness self-check: pair %d run twice alone gives different transcripts", i)
 		}
 	}
@@ -98,12 +141,15 @@ func runConc(sc *ConcScript) *sim.Outcome {
 				defer wg.Done()
 				<-gate
 				starts[i] = atomic.AddInt64(&clock, 1)
-				conc[i], _ = transcript(sc.Pairs[i], uint32(sc.Yield+i*7919+round*104729)|1)
+				conc[i], _ = transcript(sc.Pairs[i], uint32(sc.Yield+i*7919+round*104729)|1, env)
 				ends[i] = atomic.AddInt64(&clock, 1)
 			}(i)
 		}
 		close(gate)
 		wg.Wait()
+		if !env.intact(o, "after all pairs ran at the same time") {
+			return o
+		}
 		for i := range conc {
 			if conc[i] != solo[i] {
 				return o.Fail("C20/interference", "conversation pair %d of %d behaves differently when the others run at the same time (transcript digest %s.. instead of %s..)", i, k, conc[i][:12], solo[i][:12])
@@ -132,7 +178,7 @@ func runConc(sc *ConcScript) *sim.Outcome {
 
 func init() { reg("C20transcripts", runConc); reg("C20race", runConc) }
 
-var concKinds = append([]string{"keys", "keys", "errmsg", "send", "send", "sess", "smp", "ans", "pp"}, lifeKinds...)
+var concKinds = append([]string{"keys", "keys", "garbage", "garbage", "garbage", "errmsg", "send", "send", "sess", "smp", "ans", "pp"}, lifeKinds...)
 
 func genConc(rt *rapid.T, maxPairs, maxOps int) *ConcScript {
 	sc := &ConcScript{Yield: rapid.IntRange(1, 1<<20).Draw(rt, "yield")}
@@ -144,7 +190,11 @@ func genConc(rt *rapid.T, maxPairs, maxOps int) *ConcScript {
 		p.PolB = (p.PolB &^ 3) | []int{3, 2, 1, 3}[i%4] | sim.PolWSStart
 		p.Cfg.SeedA += uint64(i) * 2000
 		p.Cfg.SeedB += uint64(i) * 2000
-		p.Ops = append([]SOp{{K: "send", W: 0, L: 10}, {K: "flush"}, {K: "sess", W: i & 1}, {K: "pp", W: 0, I: 1, L: 5}, {K: "smp", W: i & 1, X: 0}, {K: "flush"}, {K: "ans", W: 1 - i&1, X: 0}, {K: "flush"}, {K: "keys", W: 0}}, p.Ops...)
+		extra := rapid.IntRange(0, maxOps).Draw(rt, "extra")
+		for j := 0; j < extra; j++ {
+			p.Ops = append(p.Ops, genSOp(rt, concKinds, 400))
+		}
+		p.Ops = append([]SOp{{K: "send", W: 0, L: 10}, {K: "flush"}, {K: "sess", W: i & 1}, {K: "pp", W: 0, I: 1, L: 5}, {K: "garbage", W: i & 1, L: i}, {K: "flush"}, {K: "smp", W: i & 1, X: 0}, {K: "flush"}, {K: "ans", W: 1 - i&1, X: 0}, {K: "flush"}, {K: "keys", W: 0}}, p.Ops...)
 		sc.Pairs = append(sc.Pairs, p)
 	}
 	return sc
